@@ -896,7 +896,7 @@ impl<'a, BF: PrimeField64, EF: ExtensionField<BF>> Gen<'a, BF, EF> {
 
     /// Connect shapes that keep the program satisfiable.
     fn connect_shape(&mut self) {
-        let shape = self.rng.below(12);
+        let shape = self.rng.below(13);
         match shape {
             0 | 1 => {
                 // value <-> fresh input of equal value
@@ -1037,6 +1037,30 @@ impl<'a, BF: PrimeField64, EF: ExtensionField<BF>> Gen<'a, BF, EF> {
                     self.calls.push(Call::Connect(t, m2));
                 }
                 let _ = m1;
+            }
+            12 => {
+                // a private input whose only mention is a connect to the *second* of two muls that
+                // are duplicates at witness level (operands aliased through connect); the product is
+                // used once, in a forward add (dedup rewrites the private slot, fusion then sees a
+                // single-use product)
+                let k = self.any();
+                let xv = self.rand_val();
+                let x = self.fresh_input_eq(xv);
+                let y = self.fresh_input_eq(xv);
+                let early = self.rng.chance(1, 2);
+                let pv = self.v(k) * xv;
+                let p_early = if early { Some(self.emit_input(pv, false)) } else { None };
+                self.calls.push(Call::Connect(x, y));
+                let _m1 = self.op2(2, k, x);
+                let m2 = self.op2(2, k, y);
+                let p = p_early.unwrap_or_else(|| self.emit_input(pv, false));
+                if self.rng.chance(1, 2) {
+                    self.calls.push(Call::Connect(p, m2));
+                } else {
+                    self.calls.push(Call::Connect(m2, p));
+                }
+                let z = self.any();
+                let _s = self.op2(0, m2, z);
             }
             10 => {
                 // witness-level duplicate through the backwards encoding of sub: r = x - y is
